@@ -30,6 +30,10 @@ def check(repo: Repo, rep, tier):
 
     default_guard(repo, rep)
     site_key(repo, rep)
+    from .C03 import char_units, range_prov
+
+    range_prov(repo, rep)
+    char_units(repo, rep)
 
 
 def role(e: ast.AST) -> str:
